@@ -126,6 +126,27 @@ def build(P):
             "TYPE IP = ^INTEGER\nDECLARE x, y : INTEGER\nDECLARE p : IP\nx <- 1\ny <- 2\np <- ^x\nFUNCTION Swing() RETURNS INTEGER\np <- ^y\nRETURN 7\nENDFUNCTION\nPROCEDURE P(BYREF a : INTEGER, b : INTEGER)\na <- a * 100 + b\nENDPROCEDURE\nCALL P(p^, Swing())\nOUTPUT x, \" \", y",
         ]
         yield ("scoped-types", [Case(id="C05-scoped-%d" % i, prog=(sp + "\n").encode(), meta=dict(units=["scoped/%d" % i])) for i, sp in enumerate(scoped)])
+        # parameter lists with shared types ("a, b : INTEGER, ratio : REAL, label : STRING"): every position given a value of every other position's type —
+        # each parameter keeps ITS declared type whatever the grouping (a shifted type list accepts the wrong ones and refuses the right ones)
+        glists = []
+        heads = [("a, b : INTEGER, ratio : REAL, label : STRING", ["INTEGER", "INTEGER", "REAL", "STRING"]), ("a : INTEGER, b, c : STRING, d : BOOLEAN", ["INTEGER", "STRING", "STRING", "BOOLEAN"]),
+                 ("a, b, c : INTEGER, d : STRING, e : BOOLEAN", ["INTEGER", "INTEGER", "INTEGER", "STRING", "BOOLEAN"]), ("BYREF a, b : INTEGER, BYVAL c : STRING, d : REAL", ["INTEGER", "INTEGER", "STRING", "REAL"])]
+        lit = {"INTEGER": "3", "REAL": "0.5", "STRING": '"lbl"', "BOOLEAN": "TRUE"}
+        for kind in ("PROCEDURE", "FUNCTION"):
+            for head, tys_ in heads:
+                names = ["a", "b", "c", "d", "e"][:len(tys_)] if "ratio" not in head else ["a", "b", "ratio", "label"]
+                body = ["OUTPUT \"in \", " + ", \" \", ".join(names)] + (["RETURN 1", "ENDFUNCTION"] if kind == "FUNCTION" else ["ENDPROCEDURE"])
+                hd = "%s Show(%s)%s" % (kind, head, " RETURNS INTEGER" if kind == "FUNCTION" else "")
+                decls = ["DECLARE v%d : %s" % (i, t) for i, t in enumerate(tys_)] + ["v%d <- %s" % (i, lit[t]) for i, t in enumerate(tys_)]
+                good = ["v%d" % i for i in range(len(tys_))]
+                callf = "dummy <- Show(%s)" if kind == "FUNCTION" else "CALL Show(%s)"
+                glists.append("\n".join([hd] + body + decls + [callf % ", ".join(good), "OUTPUT \"after\""]))
+                for pos in range(len(tys_)):
+                    for other in sorted(set(lit) - {tys_[pos]}):
+                        a = list(good); a[pos] = lit[other]
+                        if "BYREF" in head and pos < 2: continue
+                        glists.append("\n".join([hd] + body + decls + [callf % ", ".join(a), "OUTPUT \"after\""]))
+        yield ("grouped-parameter-types", [Case(id="C05-glist-%d" % i, prog=(sp + "\n").encode(), meta=dict(units=["glist/%d" % i])) for i, sp in enumerate(glists)])
         n = sizes(tier, 600, 20000)
         cs = []
         for i in range(n):
@@ -322,12 +343,19 @@ def build(P):
                 return ["%s%s <- %s" % (v, p, VAL[t](base + k)) for k, (p, t) in enumerate(leaves)]
             def dump(v, tag):
                 return ["OUTPUT \"%s%s=\", %s%s" % (tag, p, v, p) for p, t in leaves]
-            for chan in ["assign", "byval", "return", "array", "field", "newvar", "dynidx", "dynfield"]:
+            for chan in ["assign", "byval", "return", "array", "field", "newvar", "dynidx", "dynfield", "byval-mixed-proc", "byval-mixed-fn", "byval-mixed-fn2"]:
                 L = list(tlines) + ["DECLARE a : %s" % top, "DECLARE b : %s" % top] + dump("a", "fresh ") + fill("a", 0)
                 if chan == "assign":
                     L += ["b <- a"]
                 elif chan == "byval":
                     L += ["PROCEDURE P(x : %s)" % top] + dump("x", "in ") + fill("x", 50) + dump("x", "in2 ") + ["ENDPROCEDURE", "CALL P(a)", "b <- a"]
+                elif chan == "byval-mixed-proc":
+                    # a BYVAL record parameter next to BYREF ones (every mode keyword written out / inherited)
+                    L += ["PROCEDURE P(BYREF n : INTEGER, BYVAL x : %s, BYREF m : INTEGER)" % top] + fill("x", 50) + dump("x", "in2 ") + ["n <- 1", "m <- 2", "ENDPROCEDURE", "cnt1 <- 0", "cnt2 <- 0", "CALL P(cnt1, a, cnt2)", "OUTPUT cnt1, cnt2", "b <- a"]
+                elif chan == "byval-mixed-fn":
+                    L += ["FUNCTION F(x : %s, BYREF n : INTEGER) RETURNS INTEGER" % top] + fill("x", 50) + dump("x", "in2 ") + ["n <- 1", "RETURN 5", "ENDFUNCTION", "cnt1 <- 0", "res <- F(a, cnt1)", "OUTPUT cnt1, res", "b <- a"]
+                elif chan == "byval-mixed-fn2":
+                    L += ["FUNCTION F(BYVAL x : %s, y : %s, BYREF n : INTEGER, BYVAL z : %s) RETURNS INTEGER" % (top, top, top)] + fill("x", 50) + fill("y", 55) + fill("z", 57) + ["n <- 1", "RETURN 5", "ENDFUNCTION", "cnt1 <- 0", "res <- F(a, a, cnt1, a)", "OUTPUT cnt1, res", "b <- a"]
                 elif chan == "return":
                     L += ["FUNCTION F() RETURNS %s" % top, "RETURN a", "ENDFUNCTION", "b <- F()"]
                 elif chan == "array":
